@@ -47,6 +47,10 @@ def rec(lst, fmt, obj, what, detail="", cat=None):
     m = re.match(r"n=(\d+),nbond=(\d+)", obj)
     if "wide=extreme" in obj:
         group += "@extreme-coordinates"
+    elif "values-below-1e-99" in obj:
+        group += "@values-below-1e-99"
+    elif "title-of-blanks" in obj:
+        group += "@title-of-blanks"
     elif m and max(int(m.group(1)), int(m.group(2))) >= 100:
         group += "@100-or-more-atoms-or-bonds"
     if len([1 for f in lst if f["group"] == group]) < 3:
@@ -93,16 +97,28 @@ def objects_for(fmt):
                         kw["atcoords"] = np.clip(coords, -99, 99)
                     if n == 2:
                         kw["extra"]["compound"] = "MOL_ID: 1;\nMOLECULE: SOMETHING LONG;\nCHAIN: A;"
+                    if n == 9 and wide is False:
+                        # large entries have more than 99 COMPND lines (three-digit continuation numbers)
+                        kw["extra"]["compound"] = "\n".join(f"MOL_ID: {k};" for k in range(1, 106))
                 if fmt == "poscar":
                     kw["cellvecs"] = np.array([[9.0, 0.1, 0.0], [0.0, 8.0, 0.2], [0.3, 0.0, 7.0]])
                 out.append((f"n={n},nbond={0 if bonds is None else len(bonds)},wide={wide}", IOData(**kw), {"pdb": 1e-3, "mol2": 2e-4, "sdf": 2e-4, "xyz": 2e-10, "poscar": 1e-9}[fmt]))
         if fmt == "xyz":
             atnums, coords, _ = molecule(5)
             out.append(("optional-absent", IOData(atnums=atnums, atcoords=coords), 1e-9))
+        # a title made of blanks only (a legitimate single-line title)
+        atnums, coords, _ = molecule(2)
+        kwb = dict(atnums=atnums, atcoords=coords, title="   ")
+        if fmt == "poscar":
+            kwb["cellvecs"] = np.eye(3) * 9.0
+        out.append(("title-of-blanks", IOData(**kwb), 1e-3))
     if fmt == "cube":
         for shape in [(2, 2, 2), (2, 3, 7), (3, 1, 6), (1, 5, 13)]:
             atnums, coords, _ = molecule(3)
             data = rng.normal(size=shape)
+            tails = data.copy()
+            tails.flat[1::3] = [-8.25e-100, 7.5e-100, -3.0e-120][: len(tails.flat[1::3])] + [0.0] * max(0, len(tails.flat[1::3]) - 3)
+            out.append((f"shape={shape},values-below-1e-99", IOData(atnums=atnums, atcoords=coords, title="cube", cube=Cube(origin=np.zeros(3), axes=np.eye(3) * 0.3, data=tails)), 2e-5))
             out.append((f"shape={shape}", IOData(atnums=atnums, atcoords=coords, atcorenums=atnums.astype(float) - 0.5, title="cube", cube=Cube(origin=np.array([0.1, -0.2, 0.3]), axes=np.array([[0.2, 0.01, 0.0], [0.0, 0.3, 0.02], [0.03, 0.0, 0.4]]), data=data)), 2e-5))
             out.append((f"shape={shape},fortran-order", IOData(atnums=atnums, atcoords=coords, title="cube", cube=Cube(origin=np.zeros(3), axes=np.eye(3) * 0.3, data=np.asfortranarray(data))), 2e-5))
             out.append((f"shape={shape},transposed-view", IOData(atnums=atnums, atcoords=coords, title="cube", cube=Cube(origin=np.zeros(3), axes=np.eye(3) * 0.3, data=np.ascontiguousarray(data.transpose(2, 1, 0)).transpose(2, 1, 0))), 2e-5))
@@ -158,7 +174,7 @@ def compare(a, b, fmt, tol):
             diffs.append("bonds")
     if fmt == "mol2":
         num(a.atcharges.get("mol2charges"), b.atcharges.get("mol2charges"), "atcharges")
-        if list(a.atffparams.get("attypes", [])) != list(b.atffparams.get("attypes", [])):
+        if "attypes" in a.atffparams and list(a.atffparams["attypes"]) != list(b.atffparams.get("attypes", [])):
             diffs.append("attypes")
     if fmt == "pdb" and "attypes" in a.atffparams:
         for k in ("attypes", "restypes", "resnums"):
@@ -166,6 +182,8 @@ def compare(a, b, fmt, tol):
                 diffs.append(k)
         for k in ("occupancies", "bfactors"):
             num(a.extra[k], b.extra.get(k), k, 6e-3)
+        if "compound" in a.extra and b.extra.get("compound") != a.extra["compound"]:
+            diffs.append("compound")
     if a.cube is not None:
         if b.cube is None:
             diffs.append("cube (lost)")
@@ -181,6 +199,15 @@ def compare(a, b, fmt, tol):
         num(a.core_energy, b.core_energy, "core_energy")
     if fmt == "wfx" and a.lot is not None and b.lot != a.lot:
         diffs.append(f"lot ({a.lot!r} -> {b.lot!r})")
+    if fmt == "json_qcschema":
+        for k in ("charge", "nelec", "spinpol"):
+            x, y = getattr(a, k), getattr(b, k)
+            if x is not None and (y is None or abs(float(x) - float(y)) > 1e-9):
+                diffs.append(f"{k} ({x} -> {y})")
+        num(a.atcorenums, b.atcorenums, "atcorenums", 1e-12)
+        num(a.atmasses, b.atmasses, "atmasses", 1e-9)
+        num(a.energy, b.energy, "energy", 1e-12)
+        num(a.atgradient, b.atgradient, "atgradient", 1e-12)
     if fmt in ("fchk", "molden", "molekel", "wfn", "wfx") and a.mo is not None:
         if b.mo is None:
             diffs.append("mo (lost)")
@@ -293,6 +320,13 @@ def cycle(fmt, label, obj, tol, check_c02=True, kw=None, cmp=None):
         rec(c15, fmt, label, "second cycle fails", repr(exc.__cause__ or exc), "cycle-fails")
         return
     if fmt == "json_qcschema":
+        # the provenance trail grows by design; everything else must be stable
+        for k in ("charge", "nelec", "spinpol"):
+            if getattr(g1, k) != getattr(g2, k):
+                rec(c15, fmt, label, f"object changes in the second cycle: {k}", f"{getattr(g1, k)} -> {getattr(g2, k)}", "object-drift." + k)
+        for k in ("atnums", "atcoords", "atcorenums", "atmasses", "atgradient", "energy"):
+            if digest(getattr(g1, k)) != digest(getattr(g2, k)):
+                rec(c15, fmt, label, f"object changes in the second cycle: {k}", "", "object-drift." + k)
         return
     if digest(g1) != digest(g2):
         rec(c15, fmt, label, "object changes in the second cycle: " + first_diff(g1, g2), "", "object-drift." + first_diff(g1, g2))
@@ -349,10 +383,10 @@ CORPUS = {
     "molekel": ["h2_sto3g.mkl", "ethanol.mkl", "li2.mkl"],
     "wfn": ["h2o_sto3g.wfn", "he_s_orbital.wfn", "o2_uhf.wfn", "lif_fci.wfn", "li_sp_orbital.wfn"],
     "wfx": ["h2o_sto3g.wfx", "water_sto3g_hf.wfx", "h2_ub3lyp_ccpvtz.wfx", "lih_cation_uhf.wfx"],
-    "json_qcschema": ["LiCl_molecule.json", "CuSCN_molecule.json", "H2O_HF_STO3G_Gaussian_input.json", "LiCl_STO4G_Gaussian_output.json"],
+    "json_qcschema": ["water_cluster_ghost.json", "LiCl_molecule.json", "CuSCN_molecule.json", "H2O_HF_STO3G_Gaussian_input.json", "LiCl_STO4G_Gaussian_output.json", "Hydroxyl_radical_molecule.json", "water_cluster.json", "water_full.json", "water_mp2_input.json", "CuSCN_molecule_extra.json", "LiCl_STO4G_Gaussian_input_extra.json", "H2O_CCSDprTpr_STO3G_output.json", "xtb_water_no_basis.json", "turbomole_water_energy_hf_output.json", "turbomole_water_gradient_rimp2_output.json", "LiCl_explicit_STO4G_input.json", "LiCl_string_STO4G_input.json"],
 }
 for fmt, files in CORPUS.items():
-    for fn in files[: (3 if tier == "quick" else 100)]:
+    for fn in files[: (100 if fmt == "json_qcschema" else 3 if tier == "quick" else 100)]:
         p = os.path.join(data_dir, fn)
         if not os.path.exists(p):
             continue
@@ -388,6 +422,10 @@ for fmt, files in CORPUS.items():
                         rdms[k] = m + m.T
                     rich.one_rdms = rdms
                 cycle(fmt, f"{fn}+all-optional-sections,run_type={run_type}", rich, 1e-6)
+            tiny = load_one(p, fmt=fmt)
+            tiny.atgradient = np.full((obj.natom, 3), 1.0)
+            tiny.atgradient[0, 1], tiny.atgradient[-1, 2] = -2.5e-100, -6.0e-120
+            cycle(fmt, f"{fn}+values-below-1e-99", tiny, 1e-6)
 
 # every corpus file converted to every format that accepts it (C15 only)
 allfiles = sorted(glob.glob(os.path.join(data_dir, "*")), key=os.path.getsize)
